@@ -82,11 +82,13 @@ impl crate::inflight::SizedRequest for Decoded {
     }
 
     fn is_publish(&self) -> bool {
-        matches!(self, Decoded::Publish(..))
+        // only a publish with streaming payload needs its chunks to bypass in-flight limits
+        matches!(self, Decoded::Publish(pkt, buf, _) if (buf.len() as u32) < pkt.payload_size)
     }
 
     fn is_chunk(&self) -> bool {
-        matches!(self, Decoded::PayloadChunk(..))
+        // final chunk ends the bypass
+        matches!(self, Decoded::PayloadChunk(_, false))
     }
 }
 
